@@ -119,7 +119,7 @@ func PrepareC06(ctx *Ctx) (*Prepared, error) {
 func PrepareC07(ctx *Ctx) (*Prepared, error) {
 	return prepareCodec(ctx, codecSpec{profile: "lite", perJob: 1, harnesses: []string{"VH_C07", "VH_C07W"},
 		harnessesFor: func(p *corpus.Pkg, tier string) []string {
-			if tier == "thorough" || p.Ctor == "T" || p.Ctor == "T[]" || ((p.Leaf == "int32" || p.Leaf == "string") && !p.Deep) {
+			if tier == "thorough" || p.Ctor == "T" || p.Ctor == "T[]" || ((p.Leaf == "int32" || p.Leaf == "string") && !p.Deep && !p.LongStr) {
 				return []string{"VH_C07", "VH_C07W"}
 			}
 			// quick tier: the corruption-window harness is limited to the shapes above
